@@ -135,4 +135,16 @@ PROPS = {
         "reject a truncated encoding is a premise validated only by this fault enumeration",
         assumptions=["Blosc decode + unpickle, pickle.load of chunk_index and json.load reject every strict prefix of a valid encoding"],
     ),
+    "C15": dict(
+        units=["GenCli"],
+        props_files=["Props/C15.v"],
+        driver="c15",
+        rule="(a) every command x generated option combinations with the library function mocked: received arguments vs the "
+        "documented mapping of the typed values; (b) real command histories (explode/encode/convert/mkschema/inspect, overwrite "
+        "guard declined/confirmed/forced, dexplode/dencode with shuffled order, zero/one-based, one partition left out, "
+        "vcfpartition, plink) vs the library-driven reference. distinct = distinct command line / history step; non-trivial = "
+        "at least one option given",
+        status="full on the generated table (finite, decided by complete evaluation); click's parsing is exercised, not modelled",
+        assumptions=["click passes option values of the declared type to the command function (exercised with the library mocked)"],
+    ),
 }
